@@ -18,6 +18,7 @@
     (false-alarm level 1e-9, search only).
 The refutation theorems of Props/C17.v are replayed on tables whose fitted structure IS the Coq witness (F10, F10b).
 """
+COQCHK = ['C17_data', 'C17_sample']   # cones without Coquelicot / Interval: coqchk -o re-checks them in about a minute each (thorough tier)
 import hashlib
 import math
 import warnings
